@@ -81,6 +81,11 @@ func genDoc(t *rapid.T, name string, isType bool) []string {
 	var out []string
 	for i := 0; i < n; i++ {
 		l := rapid.SampledFrom(rdDocPool).Draw(t, "docline")
+		if rapid.IntRange(0, 7).Draw(t, "longline") == 0 {
+			// a long line with a character that needs escaping (or a wide rune) at an arbitrary offset around 100-260 bytes
+			l = "long " + strings.Repeat("ab ", rapid.IntRange(28, 80).Draw(t, "longpad")) + strings.Repeat("x", rapid.IntRange(0, 3).Draw(t, "longshift")) +
+				rapid.SampledFrom([]string{`\`, `\\\`, `"`, "\x7f", "\u200b", "é", "中", `\"`, "\t"}).Draw(t, "longesc") + " tail " + rapid.SampledFrom([]string{`\`, "end", `\\x`}).Draw(t, "longtail")
+		}
 		if i == 0 && isType && rapid.Bool().Draw(t, "nameprefix") {
 			l = name + " " + l
 			switch rapid.IntRange(0, 7).Draw(t, "nameonly") {
@@ -602,6 +607,33 @@ func (p rdPkg) testSource() string {
 				}
 				fmt.Fprintf(b, "\t\tif doc, found := d.RuntimeDoc(%q); !found || !sameDoc(doc, %s) {\n\t\t\tt.Errorf(\"VT-FAIL %s.RuntimeDoc(%s) = %%q, %%v; want %%q, true\", doc, found, %s)\n\t\t}\n",
 					n, goStrings(ans[n]), ty.Name, n, goStrings(ans[n]))
+			}
+			// the documentation is static: a zero value (embedded pointers nil) answers the same, as long as no embedded struct embeds
+			// another one itself (a nil pointer could not be followed further)
+			flat, hasPtr := true, false
+			for _, f := range ty.Fields {
+				if f.Embed == "" {
+					continue
+				}
+				hasPtr = hasPtr || f.Ptr
+				for _, ef := range p.typeByName(f.Embed).Fields {
+					flat = flat && ef.Embed == ""
+				}
+			}
+			if flat && hasPtr {
+				zero := "new(" + ty.Name + ")"
+				if ty.Kind == "generic" {
+					zero = "new(" + ty.Name + "[int])"
+				}
+				fmt.Fprintf(b, "\t\tfunc() {\n\t\t\tdefer func() {\n\t\t\t\tif p := recover(); p != nil {\n\t\t\t\t\tt.Errorf(\"VT-FAIL RuntimeDoc on a zero %s panics: %%v\", p)\n\t\t\t\t}\n\t\t\t}()\n\t\t\tvar zv any = %s\n\t\t\tz := zv.(rdoc)\n\t\t\t_ = z\n", ty.Name, zero)
+				for _, n := range names {
+					if len(via[n]) > 0 {
+						continue
+					}
+					fmt.Fprintf(b, "\t\t\tif doc, found := z.RuntimeDoc(%q); !found || !sameDoc(doc, %s) {\n\t\t\t\tt.Errorf(\"VT-FAIL zero %s: RuntimeDoc(%s) = %%q, %%v; want %%q, true (embedded pointers are nil, the documentation is static)\", doc, found, %s)\n\t\t\t}\n",
+						n, goStrings(ans[n]), ty.Name, n, goStrings(ans[n]))
+				}
+				b.WriteString("\t\t}()\n")
 			}
 			unknown := []string{"NoSuchField", "", "runtimeDoc"}
 			for n := range notListed {
